@@ -1,11 +1,11 @@
-SPECIFICATION FairSpec
+SPECIFICATION Spec
 CONSTANTS
   Cfg0 <- MCfg
   Types <- MTypes
-  MaxEv = 3
+  MaxEv = 2
   MaxAct = 3
-  Budget = 2
-  NDrv = 1
+  Budget = 1
+  NDrv = 2
   DrvBudget = 2
   MaxDepth = 2
   QueueCap = 0
@@ -13,9 +13,9 @@ CONSTANTS
   WithErrors = FALSE
   WithIdle = FALSE
   WithSleep = FALSE
-  WithExpect = FALSE
-  MaxExpect = 0
-  ExpFilters = {}
+  WithExpect = TRUE
+  MaxExpect = 2
+  ExpFilters = {"any", "odd", "boom"}
   WithWalFaults = FALSE
   WithStop = FALSE
   TimeoutTypes = {}
@@ -24,5 +24,4 @@ INVARIANT TypeOK
 INVARIANT LockOK
 INVARIANT NoUnexplainedWitness
 INVARIANT TerminalOK
-PROPERTY Terminates
 CHECK_DEADLOCK FALSE
